@@ -44,6 +44,30 @@ pub mod _benchable {
     pub use super::iter::Bytes;
 }
 
+#[cfg(httparse_verif)]
+#[doc(hidden)]
+#[allow(missing_docs)]
+// WARNING: verification hooks (cfg(httparse_verif) only), not fit for public consumption
+pub mod _verif {
+    pub use super::simd::verif::*;
+
+    pub fn is_method_token(b: u8) -> bool {
+        super::is_method_token(b)
+    }
+
+    pub fn is_uri_token(b: u8) -> bool {
+        super::is_uri_token(b)
+    }
+
+    pub fn is_header_name_token(b: u8) -> bool {
+        super::is_header_name_token(b)
+    }
+
+    pub fn is_header_value_token(b: u8) -> bool {
+        super::is_header_value_token(b)
+    }
+}
+
 /// Determines if byte is a method token char.
 ///
 /// > ```notrust
